@@ -10,11 +10,14 @@ from http_e2e import *
 CLIENT_IPS = ["127.0.0.2", "127.0.0.3", "127.0.0.4", "::1"]
 
 
-def scenario(ctx, log, run_id, sw, ww, keep_alive, rnd, quick, max_scrape=3, every_offset=False):
+def scenario(ctx, log, run_id, sw, ww, keep_alive, rnd, quick, max_scrape=3, every_offset=False, tls=False):
+    import http_e2e
     port = free_port(socket.SOCK_STREAM)
+    cert = make_cert(ctx, "c16_%d" % run_id) if tls else None
     cfg = http_config(port, socket_workers=sw, swarm_workers=ww, keep_alive=keep_alive, max_scrape=max_scrape,
-                      max_peers=4)
-    t = Tracker(ctx, "http", cfg, "c16_%d_%d_%s" % (sw, ww, "ka" if keep_alive else "noka"))
+                      max_peers=4, tls=cert)
+    t = Tracker(ctx, "http", cfg, "c16_%d_%d_%s%s" % (sw, ww, "ka" if keep_alive else "noka", "_tls" if tls else ""))
+    http_e2e.USE_TLS = tls
     try:
         tcp_wait_ready(("127.0.0.1", port), tracker=t)
         tcp_wait_ready(("::1", port), tracker=t)
@@ -95,6 +98,7 @@ def scenario(ctx, log, run_id, sw, ww, keep_alive, rnd, quick, max_scrape=3, eve
             # matches this event, so the run is rejected
             log.add({"ev": "tracker_died", "stderr": t.stderr()[-600:], "stdout": t.stdout()[-300:]})
     finally:
+        http_e2e.USE_TLS = False
         t.stop()
 
 
@@ -318,6 +322,11 @@ def run(ctx):
         [(s, w, ka) for s in (1, 2, 3) for w in (1, 2, 3) for ka in (True, False)]
     for k, (sw, ww, ka) in enumerate(combos):
         scenario(ctx, log, k, sw, ww, ka, rnd, ctx.quick(), every_offset=(not ctx.quick() and k == len(combos) - 2))
+    # the same contract over TLS (the statement does not exclude it): the connection code is generic over the
+    # stream type, the TLS accept path and record-wise delivery of the request are exercised here only
+    tls_combos = [(2, 2, True)] if ctx.quick() else [(2, 2, True), (1, 3, False), (3, 1, True)]
+    for k, (sw, ww, ka) in enumerate(tls_combos):
+        scenario(ctx, log, 70 + k, sw, ww, ka, rnd, ctx.quick(), tls=True)
     digits_scenario(ctx, log, 90, rnd)
     stress_scenario(ctx, log, 91, rnd, ctx.quick())
     busy_keepalive_scenario(ctx, log, 92, rnd)
@@ -332,7 +341,8 @@ def run(ctx):
         binding_selftest(ctx, "HttpServer_Trace", "HttpServer_Trace.cfg", tp, mutate_scrape_extra, label="selftest_scrape")
     calls = [e for e in log.events if e.get("ev") == "call"]
     ctx.coverage.update({
-        "configurations": ["%dx%d %s" % (s, w, "keep-alive" if ka else "close") for s, w, ka in combos],
+        "configurations": ["%dx%d %s" % (s, w, "keep-alive" if ka else "close") for s, w, ka in combos]
+        + ["%dx%d %s TLS" % (s, w, "keep-alive" if ka else "close") for s, w, ka in tls_combos],
         "requests": len(calls),
         "requests_split_across_segments": sum(1 for e in calls if e.get("cuts")),
         "replies": sum(1 for e in calls if e.get("reply", {}).get("outcome") == "reply"),
@@ -346,7 +356,7 @@ def run(ctx):
     ctx.add_sample(calls[:2])
     if not ctx.quick():
         idle_extension(ctx)
-    ctx.assumptions += ["pipelined requests are outside the statement; TLS is not exercised",
+    ctx.assumptions += ["pipelined requests are outside the statement; TLS runs use a throw-away self-signed certificate that the client does not verify",
                         "multi-hash scrapes are issued at quiescence (the code does not make them atomic across torrents)"]
 
 
